@@ -94,6 +94,160 @@ def cmparr_contract(wits):
     return contract
 
 
+# ------------------------------------------------------------------------------------------------ sort: specification and theory
+HASNAN = Function('HASNAN', IntSort(), BoolSort())          # _has_nan's own contract: a NaN at some depth
+M = Int('M')                                                # common length of the tuples in the list handed to sort
+
+
+def HASNAN_unf(h):
+    j = Int('j!hn')
+    return If(is_seq(h), z3.Exists([j], And(0 <= j, j < ln(h), HASNAN(at(h, j)))), is_nan(h))
+
+
+def HASNAN_DEF():
+    """_has_nan computes HASNAN_unf (obligation has_nan.body_returns_the_unfolded_spec) - definition of HASNAN on the universe"""
+    h = Int('h!hn')
+    return ForAll([h], Implies(inU(h), HASNAN(h) == HASNAN_unf(h)), patterns=[HASNAN(h)])
+
+
+def sort_scalar(h):
+    """the scalars of sort's quantifier: None, ints, finite floats, NaN, strings, datetimes (no bools, no infinities)"""
+    return And(tv.tag_in(h, (NONE_T, INT_T, FLOAT_T, STR_T, DT_T)), Implies(tag(h) == FLOAT_T, Or(fk(h) == FIN, fk(h) == NAN)))
+
+
+def sort_elem(h):
+    j = Int('j!se')
+    return Or(sort_scalar(h), And(tag(h) == TUPLE_T, ln(h) == M, ForAll([j], Implies(And(0 <= j, j < M), sort_scalar(at(h, j))), patterns=[at(h, j)])))
+
+
+def lemma_scalar(p, q):
+    """on NaN-free scalars of sort's universe: cmp is 0 exactly on identical-or-== values, and wherever Python's < is defined
+    it says what cmp says"""
+    return Implies(And(inU(p), inU(q), sort_scalar(p), sort_scalar(q), Not(is_nan(p)), Not(is_nan(q))),
+                   And((CMP(p, q) == 0) == tv.same_elem(p, q), Implies(tv.lt_defined(p, q), tv.py_lt(p, q) == (CMP(p, q) < 0))))
+
+
+def lemma_elem(a, b):
+    return Implies(And(inU(a), inU(b), sort_elem(a), sort_elem(b), Not(HASNAN(a)), Not(HASNAN(b))),
+                   Implies(tv.lt_defined(a, b), tv.py_lt(a, b) == (CMP(a, b) < 0)))
+
+
+def cmp_top_contract(ex, st, args, kwargs):
+    """cmp called from Cmp.cmp: the contract established by the cmp.* obligations for values of any nesting depth"""
+    a, b = args
+    if a.kind != 'val' or b.kind != 'val':
+        # e.g. a Cmp wrapper object handed to cmp: not a value of the universe the contract speaks about
+        ex.oblige(st, 'call.cmp.pre.arguments_in_the_universe', BoolVal(False), kind='pre')
+        return I(fresh_int('cmp_undef'))
+    ex.oblige(st, 'call.cmp.pre.arguments_in_the_universe', And(inU(a.t), inU(b.t)), kind='pre')
+    ex.use('callee contract:cmp(a,b) returns CMP(a,b) in {-1,0,1} without raising, CMP a total preorder (cmp.* obligations, all depths by induction)')
+    # stated as a fact of the executor: an assumption made inside an inlined expression call does not reach the caller's path condition
+    ex.fact(Implies(And(inU(a.t), inU(b.t)), And(CMP(a.t, b.t) >= -1, CMP(a.t, b.t) <= 1)))
+    return I(CMP(a.t, b.t))
+
+
+def hasnan_contract(recursive):
+    def contract(ex, st, args, kwargs):
+        (a,) = args
+        if a.kind != 'val':
+            raise OutOfSubset('_has_nan by contract on %s' % a.kind)
+        if recursive:
+            ex.oblige(st, 'call._has_nan.argument_of_smaller_depth', And(inU(a.t), depth(a.t) < D), kind='pre')
+            ex.use('induction hypothesis:_has_nan on values of nesting depth < D returns the boolean HASNAN without raising')
+        else:
+            ex.oblige(st, 'call._has_nan.pre.argument_in_the_universe', inU(a.t), kind='pre')
+            ex.use('callee contract:_has_nan(v) returns the boolean HASNAN(v) without raising (has_nan.* obligations)')
+        return B(HASNAN(a.t))
+    return contract
+
+
+class SortTh(Vals):
+    """Vals + the Cmp wrapper class of pyg_base._sort (objects with a field x; methods are executed from the real source) and
+    the sorted() axiom instantiated with the order of cmp"""
+
+    def __init__(self, contracts=None):
+        Vals.__init__(self, contracts)
+        self.sorted_calls = []          # (input handle, result handle, pi, pinv, how)
+
+    def name(self, ex, st, ident):
+        if ident == 'Cmp':
+            return SV('class', None, name='Cmp')
+        return Vals.name(self, ex, st, ident)
+
+    def pre_call(self, ex, st, e):
+        if isinstance(e.func, ast.Name) and e.func.id == 'isinstance' and len(e.args) == 2 and ast.unparse(e.args[1]) == 'Cmp':
+            v = ex.eval(st, e.args[0])
+            return B(v.kind == 'obj' and v.f.get('cls') == 'Cmp')
+        return Vals.pre_call(self, ex, st, e)
+
+    def attr(self, ex, st, e, recv, name):
+        if recv.kind == 'obj':
+            if name in recv.f.get('fields', {}):
+                return recv.f['fields'][name]
+            ex.raise_if(st, BoolVal(True), 'AttributeError')
+            return SV('none')
+        return Vals.attr(self, ex, st, e, recv, name)
+
+    def store_attr(self, ex, st, tg, recv, name, v):
+        if recv.kind == 'obj':
+            fields = dict(recv.f.get('fields', {})); fields[name] = v
+            return SV('obj', None, cls=recv.f['cls'], fields=fields)
+        return NotImplemented
+
+    def construct_cmp(self, ex, st, v):
+        """Cmp(v): the real __init__ executed on a blank object"""
+        blank = SV('obj', None, cls='Cmp', fields={})
+        outs = ex.run_function(st, 'Cmp.__init__', [blank, v], {})
+        objs = [o.st.env.get('self') for o in outs if o.kind == 'return']
+        if len(outs) != 1 or len(objs) != 1 or objs[0] is None:
+            raise OutOfSubset('Cmp.__init__ has more than one path')
+        return objs[0]
+
+    def call(self, ex, st, e, fname, args, kwargs):
+        if fname == 'sorted' and len(args) == 1 and args[0].kind == 'val':
+            return self.sorted(ex, st, args[0], kwargs.get('key'))
+        return Vals.call(self, ex, st, e, fname, args, kwargs)
+
+    def sorted(self, ex, st, L, key):
+        hL = named(st, L.t, 'srt_in')
+        ex.raise_if(st, Not(is_seq(hL)), 'TypeError')
+        i0, j0 = fresh_int('i0'), fresh_int('j0')
+        ea, eb = at(hL, i0), at(hL, j0)
+        sub = st.fork(); sub.guards = []; sub.pending = []
+        sub.pc = st.pc + st.guards + [0 <= i0, i0 < ln(hL), 0 <= j0, j0 < ln(hL)]
+        if key is None:
+            # the comparison supplied is Python's own `<`; the total preorder it must agree with (where defined) is cmp's
+            ex.use(tv.SEQ_LT_NOTE)
+            ex.use('lemma:native order agrees with cmp on NaN-free elements of sort\'s universe (sort.lemma.* obligations), instantiated for a generic pair')
+            sub.pc.append(lemma_elem(ea, eb))
+            ex.oblige(sub, 'call.sorted.native_order_agrees_with_cmp_wherever_it_is_defined',
+                      Implies(tv.lt_defined(ea, eb), tv.py_lt(ea, eb) == (CMP(ea, eb) < 0)), kind='pre')
+            raises = z3.Bool(tv.fresh_name('sorted_raises'))
+            i, j = Int('i!sr'), Int('j!sr')
+            st.assume(Implies(raises, z3.Exists([i, j], And(0 <= i, i < ln(hL), 0 <= j, j < ln(hL), Not(tv.lt_defined(at(hL, i), at(hL, j)))))))
+            ex.raise_if(st, raises, 'TypeError')
+            how = 'native'
+        elif key.kind == 'class' and key.f.get('name') == 'Cmp':
+            # the comparison supplied is Cmp(a) < Cmp(b): execute the real wrapper class on a generic pair of elements
+            oa = self.construct_cmp(ex, sub, V(ea))
+            ob = self.construct_cmp(ex, sub, V(eb))
+            base = len(sub.pc)
+            outs = ex.run_function(sub, 'Cmp.__lt__', [oa, ob], {})
+            bad = [suffix(o.st, base) for o in outs if o.kind != 'return']
+            ex.oblige(sub, 'call.sorted.key_comparison_never_raises', Not(Or(*bad)) if bad else BoolVal(True), kind='pre')
+            for o in outs:
+                if o.kind == 'return':
+                    if o.val.kind != 'bool':
+                        raise OutOfSubset('Cmp.__lt__ returns a %s' % o.val.kind)
+                    ex.oblige(o.st, 'call.sorted.key_comparison_is_the_strict_part_of_cmp', o.val.t == (CMP(ea, eb) < 0), kind='pre')
+            how = 'key=Cmp'
+        else:
+            raise OutOfSubset('sorted with key of kind %s' % key.kind)
+        R, pi, pinv = tv.sorted_result(ex, st, hL, lambda a, b: CMP(a, b) <= 0)
+        self.sorted_calls.append((hL, R, pi, pinv, how))
+        return V(R)
+
+
 # ------------------------------------------------------------------------------------------------ machinery
 def machinery(ctx):
     ms, ml, mt = ctx.mod('_sort'), ctx.mod('_loop'), ctx.mod('_types')
@@ -267,6 +421,113 @@ def build(ctx):
         ctx.cover('cmp.lexicographic_path_reachable', hy2 + [rel_xy(R1), R1 == 1, tag(x) == TUPLE_T, tag(y) == TUPLE_T, ln(x) == 3, ln(y) == 3,
                                                              CMP(at(x, 0), at(y, 0)) == 0])
     ctx.guarded('cmp', cmp_section)
+    # ------------------------------------------------------------------ _has_nan: body against its recursive spec
+    def hasnan_section():
+        fh = ms.func('_has_nan')
+        h = Int('h')
+        ex = Exec(ms, [Vals({'_has_nan': hasnan_contract(True)})], inline={'_has_nan': (ms, fh)}, name='has_nan')
+        st = State(); st.pc += pre(h)
+        hy0 = list(st.pc); base = len(st.pc)
+        outs = ex.run_function(st, '_has_nan', [V(h)], {})
+        ctx.absorb(ex)
+        ctx.record_function(ms, '_has_nan', fh, ex.stmts_executed)
+        wh = dict(D=D); wh.update(tv.witness_fields('x', h))
+        bad = []
+        for out in outs:
+            if out.kind != 'return':
+                bad.append(suffix(out.st, base)); continue
+            if out.val.kind != 'bool':
+                raise OutOfSubset('_has_nan returns a %s' % out.val.kind)
+            ctx.post('has_nan.body_returns_the_unfolded_spec', ex.facts + out.st.pc, out.val.t == HASNAN_unf(h), witness=wh, replay=rp('has_nan'))
+        ctx.post('has_nan.never_raises', ex.facts + hy0, Not(Or(*bad)) if bad else BoolVal(True), kind='safety', witness=wh, replay=rp('has_nan'))
+    ctx.guarded('has_nan', hasnan_section)
+
+    # ------------------------------------------------------------------ sort: lemmas linking Python's native order with cmp
+    def sort_lemmas():
+        p, q = Ints('p q')
+        rel_pq, _, ex_pq, _, _ = run_cmp(ctx, mach, p, q, 'sort.lemma.cmp')
+        ctx.trusted |= ex_pq.trusted
+        wpq = dict(D=D); wpq.update(tv.witness_fields('x', p)); wpq.update(tv.witness_fields('y', q))
+        ctx.post('sort.lemma.native_order_and_equality_agree_with_cmp_on_scalars', pre(p, q) + ex_pq.facts + [rel_pq(CMP(p, q))], lemma_scalar(p, q),
+                 kind='lemma', witness=wpq, replay=rp('sort.lemma.scalar'))
+        a, b = Ints('a b')
+        rel_ab, _, ex_ab, w_ab, _ = run_cmp(ctx, mach, a, b, 'sort.lemma.cmp')
+        ctx.trusted |= ex_ab.trusted
+        idx = [w for (_a, _b, _r, w) in w_ab.items] + [tv.FD(a, b)]
+        inst = [lemma_scalar(at(a, w), at(b, w)) for w in idx]
+        wab = dict(D=D, M=M); wab.update(tv.witness_fields('x', a)); wab.update(tv.witness_fields('y', b))
+        for k in range(3):
+            wab.update(tv.witness_fields('x%d' % k, at(a, k))); wab.update(tv.witness_fields('y%d' % k, at(b, k)))
+        ctx.post('sort.lemma.native_order_agrees_with_cmp_on_elements', pre(a, b) + ex_ab.facts + [rel_ab(CMP(a, b)), HASNAN_DEF(),
+                 Implies(And(is_seq(a), is_seq(b)), tv.seq_lt_axiom(a, b))] + inst, lemma_elem(a, b), kind='lemma', witness=wab,
+                 replay=rp('sort.lemma.elem'))
+        ctx.cover('sort.lemma.tuples_premise_satisfiable', pre(a, b) + ex_ab.facts + [rel_ab(CMP(a, b)), HASNAN_DEF(), tv.seq_lt_axiom(a, b), M == 2,
+                  tag(a) == TUPLE_T, tag(b) == TUPLE_T, sort_elem(a), sort_elem(b), Not(HASNAN(a)), Not(HASNAN(b)), tv.lt_defined(a, b), CMP(a, b) < 0,
+                  tv.FD(a, b) == 1] + inst)
+        ctx.trust('definition:CMP(a,b) is the value cmp(a,b) returns - it satisfies the summary of the real body (instances rel(CMP(a,b)) in sort.lemma.*)')
+    ctx.guarded('sort.lemma', sort_lemmas)
+
+    # ------------------------------------------------------------------ sort: body, given the sorted() axiom
+    def sort_section():
+        fs = ms.func('sort')
+        xs = Int('xs')
+        th = SortTh({'_has_nan': hasnan_contract(False), 'cmp': cmp_top_contract})
+        inline = {'sort': (ms, fs)}
+        for meth in ('__init__', 'cmp', '__lt__'):
+            inline['Cmp.' + meth] = (ms, ms.func('Cmp.' + meth))
+        ex = Exec(ms, [th], inline=inline, name='sort')
+        j = Int('j!xs')
+        st = State()
+        st.pc += tv.universe_axioms(TAGS) + [inU(xs), is_seq(xs), M >= 0,
+                                              ForAll([j], Implies(And(0 <= j, j < ln(xs)), sort_elem(at(xs, j))), patterns=[at(xs, j)])]
+        hy0 = list(st.pc); base = len(st.pc)
+        outs = ex.run_function(st, 'sort', [V(xs)], {})
+        ws = dict(M=M); ws.update(tv.witness_fields('x', xs))
+        sort_hints = [ln(xs) <= 3, tag(xs) == LIST_T]
+        for k in range(3):
+            ws.update(tv.witness_fields('x%d' % k, at(xs, k)))
+            sort_hints += tv.small_hints(at(xs, k)) + [is_scalar(at(xs, k))]
+        for ob in ex.obligations:           # call-site obligations: replayable on the list handed to sort
+            ob.witness = ob.witness or ws
+            ob.meta.setdefault('replay', rp('sort'))
+            ob.meta['search_hints'] = sort_hints
+        saved_meta = ctx.default_meta
+        ctx.default_meta = dict(search_hints=sort_hints)
+        ctx.absorb(ex)
+        ctx.record_function(ms, 'sort', fs, ex.stmts_executed)
+        for meth in ('__init__', 'cmp', '__lt__'):
+            ctx.record_function(ms, 'Cmp.' + meth, ms.func('Cmp.' + meth), ex.stmts_executed, how='executed for a generic pair of elements at sorted(..., key=Cmp)')
+        bad, nret = [], 0
+        p, q = Ints('p!post q!post')
+        n = ln(xs)
+        for out in outs:
+            if out.kind != 'return':
+                bad.append(suffix(out.st, base)); continue
+            if out.val.kind != 'val':
+                raise OutOfSubset('sort returns a %s' % out.val.kind)
+            R = out.val.t
+            rec = [c for c in th.sorted_calls if c[1].get_id() == R.get_id()]
+            if not rec:
+                raise OutOfSubset('sort returns a value that is not the result of sorted()')
+            _hL, _R, pi, pinv, how = rec[0]
+            nret += 1
+            hy = ex.facts + out.st.pc
+            tagp = how.replace('=', '_')
+            ctx.post('sort.%s.returns_a_permutation_of_its_input' % tagp, hy,
+                     And(ln(R) == n,
+                         ForAll([p], Implies(And(0 <= p, p < n), And(0 <= pi(p), pi(p) < n, at(R, p) == at(xs, pi(p)), pinv(pi(p)) == p))),
+                         ForAll([q], Implies(And(0 <= q, q < n), And(0 <= pinv(q), pinv(q) < n, pi(pinv(q)) == q)))),
+                     witness=ws, replay=rp('sort'))
+            ctx.post('sort.%s.result_is_nondecreasing_under_cmp' % tagp, hy,
+                     ForAll([p, q], Implies(And(0 <= p, p < q, q < n), CMP(at(R, p), at(R, q)) <= 0)), witness=ws, replay=rp('sort'))
+        ctx.post('sort.never_raises', ex.facts + hy0, Not(Or(*bad)) if bad else BoolVal(True), kind='safety', witness=ws, replay=rp('sort'))
+        ctx.default_meta = saved_meta
+        if nret < 1:
+            raise OutOfSubset('sort has no returning path')
+        ctx.cover('sort.pre_satisfiable.nan_and_mixed_types', hy0 + [ln(xs) == 3, is_nan(at(xs, 0)), tag(at(xs, 1)) == STR_T, tag(at(xs, 2)) == NONE_T])
+        ctx.cover('sort.pre_satisfiable.tuples', hy0 + [ln(xs) == 2, M == 2, tag(at(xs, 0)) == TUPLE_T, tag(at(xs, 1)) == TUPLE_T, at(xs, 0) != at(xs, 1)])
+    ctx.guarded('sort', sort_section)
+
     ctx.trust('induction schema over the nesting depth (finite, acyclic nesting): the step is discharged with the hypothesis instantiated at '
               'the witness indices of cmparr; the base case D = 0 is the same obligations on scalars')
     ctx.trust('universe:handles model object identity; None / True / False are singletons; strings enter only through an order-embedding')
